@@ -46,8 +46,23 @@ WANTED = [
     ("src/buint/checked.rs", None, "div_rem_digit", "div_rem_digit"),
 ]
 
+# which property's tie file (Proofs/LoopsTie<group>.v) is about which generated function: a function that cannot be
+# translated is replaced by a stub (so only ITS tie breaks), and with `--for Cxx` the exit status is non-zero only when a
+# function of that group (or something global: a constant definition, a missing file) could not be translated
+GROUPS = {
+    "C01": ["overflowing_add", "overflowing_sub", "add_digit"],
+    "C02": ["long_mul"],
+    "C03": ["div_rem_digit", "last_digit_index"],
+    "C05": ["unchecked_shl_internal", "unchecked_shr_pad_internal", "rotate_digits_left", "unchecked_rotate_left", "swap_bytes",
+            "reverse_bits"],
+    "C06": ["bitand", "bitor", "bitxor", "not_", "eq_", "cmp", "count_ones", "count_zeros", "leading_zeros", "trailing_zeros",
+            "leading_ones", "trailing_ones", "is_power_of_two", "is_zero", "is_one"],
+}
+LAST_MSG = [""]
+
 
 def die(msg):
+    LAST_MSG[0] = msg
     sys.stderr.write("rs2v_loops: " + msg + "\n")
     sys.exit(1)
 
@@ -1039,6 +1054,8 @@ def digit_sigs(dsrc):
 
 
 def main():
+    group = sys.argv[sys.argv.index("--for") + 1] if "--for" in sys.argv else None
+    failed = {}
     files = {}
     fns = {}
     sigs = {}
@@ -1064,12 +1081,16 @@ def main():
                     break
             files[path] = files[path][b0:e]
             consts[path] = assoc_consts(files[path])
-        generics, params, ret, body = find_fn(files[path], anchor, name, path)
-        if name in fns and name != "add":
-            die("two wanted functions are called " + name)
-        fns[name] = (path, coq, body)
-        sigs[name] = parse_sig(name, generics, params, ret)
-        sigs[name]["coq"] = coq
+        try:
+            generics, params, ret, body = find_fn(files[path], anchor, name, path)
+            if name in fns and name != "add":
+                die("two wanted functions are called " + name)
+            sg = parse_sig(name, generics, params, ret)
+            sg["coq"] = coq
+            fns[name] = (path, coq, body)
+            sigs[name] = sg
+        except (SystemExit, Exception) as ex:      # this function only: stub below
+            failed[coq] = LAST_MSG[0] if isinstance(ex, SystemExit) else repr(ex)
     dsrc = strip_comments(open(os.path.join(REPO, "src/digit.rs")).read())
     check_digit_consts(dsrc)
     dsigs = digit_sigs(dsrc)
@@ -1083,7 +1104,42 @@ def main():
            "From Bnum Require Import Base Prim.",
            "From Bnum.Model Require Import DigitPrims LoopPrims Core Imp.",
            "From Bnum.Generated Require Import DigitGen.", "", "Module Loops.", ""]
+    # a function that calls an untranslatable function is untranslatable too: iterate to a fixpoint
+    texts = {}
+    while True:
+        again = False
+        for path, anchor, name, coq in WANTED:
+            if coq in failed:
+                continue
+            try:
+                texts[coq] = translate_one(path, name, coq, fns, sigs, dsigs, consts)
+            except (SystemExit, Exception) as ex:
+                failed[coq] = LAST_MSG[0] if isinstance(ex, SystemExit) else repr(ex)
+                sigs.pop(name, None)
+                again = True
+        if not again:
+            break
     for path, anchor, name, coq in WANTED:
+        if coq not in failed:
+            out.append(texts[coq])
+        else:
+            out.append("(* %s: fn %s  -- NOT TRANSLATED: %s *)\nDefinition %s : unit := tt.\n"
+                       % (path, name, failed[coq].replace("*)", "* )").replace("(*", "( *"), coq))
+    out.append("End Loops.")
+    txt = "\n".join(out) + "\n"
+    p = os.path.join(ROOT, "coq", "Generated", "Loops.v")
+    if not os.path.exists(p) or open(p).read() != txt:
+        open(p, "w").write(txt)
+    if failed:
+        hit = [f for f in failed if group is None or f in GROUPS.get(group, [])]
+        sys.stderr.write("rs2v_loops: not translated (stub emitted, its tie lemma will not check): %s\n" % ", ".join(sorted(failed)))
+        return 1 if hit else 0
+    return 0
+
+
+def translate_one(path, name, coq, fns, sigs, dsigs, consts):
+    if True:
+        out = []
         _, _, body = fns[name]
         ast = LP(tokenize(body)).block()
         sig = sigs[name]
@@ -1105,12 +1161,7 @@ def main():
         argl += "".join(" (%s : %s)" % (n, coq_ty(t)) for n, t in sig["params"])
         out.append("(* %s: fn %s *)" % (path, name))
         out.append("Definition %s (w N : Z) (fuel : nat)%s : res (%s) :=\n%s.\n" % (coq, argl, coq_ty(sig["ret"]).strip("()") if isinstance(rs(sig["ret"]), tuple) else coq_ty(sig["ret"]), txt))
-    out.append("End Loops.")
-    txt = "\n".join(out) + "\n"
-    p = os.path.join(ROOT, "coq", "Generated", "Loops.v")
-    if not os.path.exists(p) or open(p).read() != txt:
-        open(p, "w").write(txt)
-    return 0
+        return "\n".join(out)
 
 
 if __name__ == "__main__":
